@@ -201,6 +201,7 @@ type xGen struct {
 	snap    *xSnap
 	pSys    int
 	weights map[string]int
+	flipped map[string]bool // C16 restore steps: "<root>/<id>" that are system entities in the restored content but were ordinary before
 }
 
 func (g *xGen) rootOf(store string) string {
@@ -536,14 +537,24 @@ func runHistoryX(w *wiring, txs []hTx, dir string) (string, string, error) {
 	if err != nil {
 		return "", "", err
 	}
-	defer h.close()
+	// restore steps (store_c16w2.go) may replace the harness database: the runner holds the current one
+	rn, err := newC16Runner(h, dir, c16HasRestore(txs))
+	if err != nil {
+		h.close()
+		return "", "", err
+	}
+	defer func() { rn.h.close() }()
 	var c, o strings.Builder
 	c.WriteString(w.text())
 	for i := range txs {
 		applyUpdateSysRule(i, &txs[i])
 		c.WriteString(" ")
 		c.WriteString(w.txText(&txs[i]))
-		o.WriteString(h.runTxX(&txs[i]))
+		obs, err := rn.step(&txs[i])
+		if err != nil {
+			return "", "", err
+		}
+		o.WriteString(obs)
 	}
 	return c.String(), o.String(), nil
 }
@@ -593,6 +604,9 @@ func runStoreX(o *opts) error {
 	}
 	r := newRng(o.seed)
 	wirings := []string{"idx", "casc"}
+	if profile == "c16" {
+		wirings = c16Wirings // + constraint on a child store only / on both levels (store_c16w2.go)
+	}
 	for i := 0; i < n; i++ {
 		w := wiringByName(wirings[i%len(wirings)])
 		w.derive()
@@ -626,10 +640,100 @@ func runStoreX(o *opts) error {
 			ntx += 10
 		}
 		var txs []hTx
+		// C16: histories with restore steps (the content changes underneath the store objects)
+		withRestore := profile == "c16" && r.chance(34)
+		rn, err := newC16Runner(h, tmp, withRestore)
+		if err != nil {
+			return err
+		}
+		var sysAt []bool   // sysAt[k]: the content after k steps holds a system entity
+		var snapAt []*xSnap // what existed after k steps
+		afterRestore := false
+		var script []hTx // C16: remaining steps of a scripted scenario (c16StaleScript)
+		if withRestore && ntx < 5 {
+			ntx = 5
+		}
 		for k := 0; k < ntx; k++ {
+			h = rn.h
 			g.snap = h.snapshot()
+			anySys := false
+			for _, m := range g.snap.sys {
+				if len(m) > 0 {
+					anySys = true
+				}
+			}
+			sysAt = append(sysAt, anySys)
+			snapAt = append(snapAt, g.snap)
+			if profile == "c16" {
+				stats["steps_total"]++
+				if anySys {
+					stats["steps_with_system_entities"]++
+				}
+				if len(g.c16ProtectedIn(g.snap, false)) > 0 {
+					stats["steps_with_protected_entities"]++
+				}
+			}
 			var t hTx
-			if k == 0 && r.chance(85) {
+			if len(script) == 0 && withRestore && k >= 1 && k <= 8 && r.chance(16) {
+				if script = g.c16StaleScript(k); len(script) > 0 {
+					stats["restore_stale_id_scripts"]++
+					if ntx < k+len(script) {
+						ntx = k + len(script)
+					}
+				}
+			}
+			if len(script) > 0 {
+				t, script = script[0], script[1:]
+				if _, _, isRs := c16RestoreOf(&t); isRs {
+					stats["restore_steps"]++
+				}
+			} else if withRestore && k >= 1 && r.chance(30) {
+				// back to the content after j <= k steps, preferably one that holds system entities - and (half of the time)
+				// one in which an id that is an ordinary entity NOW was a system entity (whatever the stores remember about
+				// an id is stale then)
+				j := r.intn(k + 1)
+				var withProt []int
+				for cand := 0; cand <= k; cand++ {
+					if sysAt[cand] && len(g.c16ProtectedIn(snapAt[cand], false)) > 0 {
+						withProt = append(withProt, cand)
+					}
+				}
+				if len(withProt) > 0 && r.chance(85) {
+					j = withProt[r.intn(len(withProt))]
+				}
+				g.flipped = nil
+				if r.chance(50) {
+					best := 0
+					for cand := 0; cand <= k; cand++ {
+						if fl := c16Flipped(snapAt[cand], g.snap); len(fl) > best || (len(fl) == best && best > 0 && r.chance(50)) {
+							best, j, g.flipped = len(fl), cand, fl
+						}
+					}
+				}
+				mode := c16RestoreModes[r.intn(len(c16RestoreModes))]
+				if r.chance(35) {
+					mode = []byte{'n', 'e'}[r.intn(2)]
+				}
+				if len(g.flipped) > 0 && r.chance(60) {
+					mode = []byte{'s', 'r', 'p'}[r.intn(3)] // same store objects: what they remember is now stale
+				}
+				t = c16RestoreTx(j, mode)
+				stats["restore_steps"]++
+				if len(g.flipped) > 0 {
+					stats["restore_flips_ordinary_id_to_system"]++
+				}
+				stats["restore_mode_"+string(mode)]++
+				afterRestore = true
+				if k == ntx-1 && ntx < 12 {
+					ntx++ // a restore is never the last step
+				}
+			} else if at, ok := g.c16AfterRestoreIf(afterRestore); ok {
+				t = at
+				afterRestore = false
+				stats["restore_then_ordinary_tx_on_system_entity"]++
+			} else if withRestore && k == 1 && r.chance(80) {
+				t = g.c16SysSetupTx() // so that the contents a restore can bring back hold system entities
+			} else if k == 0 && (withRestore || r.chance(85)) {
 				t = g.seedTx()
 				if len(t.Ops) == 0 {
 					t = g.genTxX()
@@ -647,10 +751,14 @@ func runStoreX(o *opts) error {
 			applyUpdateSysRule(k, &t)
 			c.WriteString(" ")
 			c.WriteString(w.txText(&t))
-			obs.WriteString(h.runTxX(&t))
+			o1, err := rn.step(&t)
+			if err != nil {
+				return err
+			}
+			obs.WriteString(o1)
 			txs = append(txs, t)
 		}
-		h.close()
+		rn.h.close()
 		cases.line("%s", c.String())
 		impl.line("%s", obs.String())
 		ob := obs.String()
